@@ -301,4 +301,41 @@ theorem pyCmp_int_left (n : Int) (r : PyVal) (o : Ord4) (h : pyCmp (.int n) r = 
     | (subst h; exact numCmp_ne_un _ _)
     | skip
 
+/-! ### numbers and strings under `equality_test` -/
+
+theorem numClose_comm (a b d : Int × Nat) : numClose a b d = numClose b a d := by
+  unfold numClose
+  have h : (a.1 * (2:Int) ^ b.2 - b.1 * (2:Int) ^ a.2).natAbs = (b.1 * (2:Int) ^ a.2 - a.1 * (2:Int) ^ b.2).natAbs := by
+    rw [← Int.natAbs_neg, Int.neg_sub]
+  rw [h, Nat.add_comm a.2 b.2]
+
+theorem numEq_comm (a b : Int × Nat) : numEq a b = numEq b a := by
+  unfold numEq
+  exact BEq.comm
+
+theorem pyEq_num (a e : PyVal) (x y : Int × Nat) (ha : num? a = some x) (he : num? e = some y) :
+    pyEq a e = numEq x y := by
+  cases a <;> simp [num?] at ha <;> cases e <;> simp [num?] at he <;> subst ha <;> subst he <;> simp [pyEq, num?]
+
+/-- `equality_test` on two numbers: the tolerance test as soon as either is a float, else `==`. -/
+theorem eqTest_num (ex : Bool) (d : Int × Nat) (a e : PyVal) (x y : Int × Nat)
+    (ha : num? a = some x) (he : num? e = some y) :
+    eqTest ex (some d) a e = .ok (if isFloat a || isFloat e then numClose y x d else numEq x y) := by
+  cases a <;> simp [num?] at ha <;> cases e <;> simp [num?] at he <;> subst ha <;> subst he <;>
+    simp [eqTest, isFloat, isIntOrFloat, num?, pyEq]
+
+/-- `equality_test` on two strings: exact, or equality of the normal forms. -/
+theorem eqTest_str (ex : Bool) (d : Option (Int × Nat)) (sa se : List Nat) :
+    eqTest ex d (.str sa) (.str se) =
+      if ex then .ok (sa == se)
+      else if isAscii sa && isAscii se then .ok (normStr se == normStr sa) else .error .unmodelled := by
+  simp [eqTest, isFloat, isIntOrFloat, num?]
+
+theorem lowerC_idem (c : Nat) : lowerC (lowerC c) = lowerC c := by
+  unfold lowerC
+  by_cases h : 65 ≤ c ∧ c ≤ 90
+  · have h2 : ¬ (65 ≤ c + 32 ∧ c + 32 ≤ 90) := by omega
+    rw [if_pos h, if_neg h2]
+  · rw [if_neg h, if_neg h]
+
 end Pedal.Assertions
